@@ -5,6 +5,7 @@ import (
 	"fmt"
 	"io"
 	"net/http"
+	"net/url"
 	"strconv"
 	"strings"
 	"time"
@@ -212,7 +213,7 @@ type zzvRW struct {
 	fileBytes int64 // bytes of the file sent as body
 	fileStart int64 // offset of the first of them
 	fileCalls int
-	textBytes int // bytes written with Write (error texts)
+	text      []byte // bytes written with Write (error texts)
 }
 
 func (w *zzvRW) Header() http.Header { return w.h }
@@ -230,7 +231,7 @@ func (w *zzvRW) Write(p []byte) (int, error) {
 	if w.code == 0 {
 		w.WriteHeader(http.StatusOK)
 	}
-	w.textBytes += len(p)
+	w.text = append(w.text, p...)
 	return len(p), nil
 }
 
@@ -264,10 +265,10 @@ const (
 	zzvFormFirstLast = iota // "A-B"
 	zzvFormOpen             // "A-"
 	zzvFormSuffix           // "-B"
-	zzvFormSpaced           // " A - B " (optional white space, accepted by both parsers)
 	zzvFormEmpty            // "" (empty list element, skipped)
+	zzvFormSpaced           // " A - B " (optional white space, accepted by both parsers)
 	zzvFormNoDash           // "A"   malformed
-	zzvFormNegEnd           // "A--B" malformed
+	zzvFormNegEnd           // "A--B" malformed (B >= 1; "-0" is read as 0 by strconv)
 	zzvFormDash             // "-"   malformed
 	zzvNForms
 )
@@ -375,7 +376,7 @@ func (q *zzvRequest) rangeHeader() string {
 }
 
 func (q *zzvRequest) build() *http.Request {
-	r := &http.Request{Method: http.MethodGet, Header: http.Header{}}
+	r := &http.Request{Method: http.MethodGet, Header: http.Header{}, URL: &url.URL{Path: "/ipfs/bafkqaaa"}}
 	if q.head {
 		r.Method = http.MethodHead
 	}
@@ -427,6 +428,9 @@ func zzvDrawSpecs(nspec, nforms int) []zzvSpec {
 		verifrt.Assume(zzvNum[2*k] >= 0)
 		verifrt.Assume(zzvNum[2*k+1] >= 0)
 		specs[k].a, specs[k].b = zzvNum[2*k], zzvNum[2*k+1]
+		if specs[k].form == zzvFormNegEnd {
+			verifrt.Assume(specs[k].b >= 1)
+		}
 	}
 	return specs
 }
@@ -435,11 +439,12 @@ func zzvDrawSpecs(nspec, nforms int) []zzvSpec {
 // Composition, as the product composes the units.
 // ---------------------------------------------------------------------------------------------------
 
-const zzvBackendError = 599 // the backend refused the request (IPFSBackend.Get returned an error)
+const zzvBackendError = 599 // the seek to the first requested range failed (IPFSBackend.Get error / 400 of the raw pipeline)
 
 // zzvWebError stands in for gateway.webError (content negotiation, logging): only the status matters.
 func zzvWebError(w http.ResponseWriter, r *http.Request, c *Config, err error, defaultCode int) {
 	w.WriteHeader(defaultCode)
+	io.WriteString(w, err.Error())
 }
 
 // zzvServeUnixFSFile follows serveDefaults -> BlocksBackend.Get -> serveFile -> serveContent for a file.
@@ -500,6 +505,10 @@ func zzvServe(q *zzvRequest, size int64) *zzvRW {
 
 func zzvCheck(q *zzvRequest, size int64, w *zzvRW) {
 	code := w.code
+	if code == 400 && q.raw && strings.Contains(string(w.text), "could not seek to location") {
+		// serve_http_content.go seekToStartOfFirstRange: the seek to the first range failed
+		code = zzvBackendError
+	}
 	verifrt.Observe("status", code)
 	verifrt.Observe("fileBytes", w.fileBytes)
 	verifrt.Observe("fileStart", w.fileStart)
@@ -577,10 +586,10 @@ func zzvCheck(q *zzvRequest, size int64, w *zzvRW) {
 		if crKind != zzvCRRange {
 			break
 		}
-		if zeroSuffix && crS == size && crE == size-1 {
-			// "bytes=-0" selects nothing (unsatisfiable by 7233 2.1); answered as an empty 206 with the
-			// Content-Range "bytes <size>-<size-1>/<size>" (behaviour inherited from net/http).
-			verifrt.Assert("C30.zero-length-suffix-is-not-a-206", false)
+		if crS == size && crE == size-1 && (zeroSuffix || size == 0) {
+			// "bytes=-0" (any file) and "bytes=-N" on an empty file select nothing; they are answered as
+			// an empty 206 with Content-Range "bytes <size>-<size-1>/<size>" (inherited from net/http).
+			verifrt.Assert("C30.206-selects-at-least-one-byte", false)
 			verifrt.Reach("end")
 			return
 		}
